@@ -20,7 +20,7 @@ def gen_ops(r, n):
 def run(res, tier, seed, replay):
     res.cov["rule"] = ("real: 6 sibling async functions (free functions and a method; by-value and by-reference parameters; unit, u32, String and 136-byte [u64;17] outputs; two with the SAME output type; originals suspending 0-3 times and counting their body runs), "
                        "random sequences (length <= 30, plus lifetimes holding 360-900 (quick) / up to 6000 (thorough) live fakes) of fake (two different fakes per function, so that re-faking A, B, A is exercised) / await / await on a spawned thread / ANOTHER thread running a whole lifetime of its own on the same async fn (must wait for the current injector and leave nothing behind) / drop injector / new injector through async_func!/async_return! whose value expression counts its evaluations, run with a hand-written poll-counting executor in a forked child; "
-                       "per await: value class, number of polls, body runs, evaluations; after the sequence every function is awaited once more (original behaviour back); each result is compared with the extracted dispatch spec; "
+                       "per installation: every range flushed holds a branch (a re-fake never passes through the original code); per await: value class, number of polls, body runs, evaluations; after the sequence every function is awaited once more (original behaviour back); each result is compared with the extracted dispatch spec; "
                        "distinct = distinct (function, faked?, thread?, outcome)")
     res.cov["trusted_base"] = vlib.TRUSTED_COMMON + ["distinct async fns have distinct future types and distinct <F as Future>::poll symbols (rustc's lowering; observed, not proved)", "harness/real asyncs.rs executor and counters"]
     res.assumptions = ["memory-level effects of an async fake are those of an executing fake on the poll function: restoration and frame follow from C02/C03"]
@@ -73,6 +73,9 @@ def run(res, tier, seed, replay):
                     res.violation(f"while this thread's injector was alive, another thread created its own injector and faked async fn {op[2:]} without waiting for it", case, g)
         if nx != len(xs) or any(x.split(":")[1] not in ("x", "u") or x.split(":")[2:4] != ["1", "0"] for x in xs):
             res.violation("the other thread's own lifetime on an async fn did not behave as a faked await (value of ITS fake, first poll, no body run, one evaluation)", case, o.get("XRES"))
+        for op, g in zip(ops, got):
+            if g.startswith("F!"):
+                res.violation(f"while faking {op} the library wrote and flushed code that is not a branch ({g[2:]} flushes): the function was taken back to its original code in between, so an await on another thread at that moment runs the original body", case, g)
         keep = [k for k, op in enumerate(ops) if not op.startswith("X:")]
         got_all = got; got = [got[k] for k in keep if k < len(got)]; ops_m = [ops[k] for k in keep]
         # model-free monitor: the spec of the statement, straight on the observation
